@@ -154,7 +154,7 @@ func c10History(c *Ctx, id string, conf machConf, autosave bool, n int, opts mac
 func init() {
 	register("C10", func(c *Ctx) {
 		c.Rule = "seeded histories of management calls (single/batch/Ex add, remove, update, batch update, filtered removal, Self* calls, ClearPolicy, LoadPolicy, SavePolicy, auto-save toggles, injected adapter failures) of length 8..30 on three models (RBAC with p/p2/g/g2, domains, priority) under both initial auto-save settings, every step compared with the model on result, listed rules, adapter call log and content; text round trip through the real file and string adapters. Distinct = history; non-trivial = the history changes the listed rules."
-		nh := 1500
+		nh := 5000
 		if c.Thorough() {
 			nh = 20000
 		}
@@ -162,7 +162,7 @@ func init() {
 		for h := 0; h < nh; h++ {
 			conf := confs[h%len(confs)]
 			autosave := (h/len(confs))%2 == 0
-			opts := machGenOpts{Clear: h%7 == 0, Load: true, Save: true, Flags: h%5 == 0, Self: true, Fail: h%3 == 0}
+			opts := machGenOpts{Clear: h%7 == 0, Load: true, Save: true, Flags: h%5 == 0, Self: true, Fail: h%3 == 0, UpdateFiltered: true}
 			c10History(c, fmt.Sprintf("c10.h%d", h), conf, autosave, 8+c.Rng.Intn(23), opts)
 		}
 		c10Text(c)
